@@ -20,6 +20,8 @@ pub fn check(_sc: &Scenario, out: &RunOutput) -> OracleResult {
     let mut n_ca_ack = 0u64;
     // Pending MSS change per connection: window in bytes before the set_mss call.
     let mut pending_mss: std::collections::HashMap<_, f64> = Default::default();
+    // per connection in fast recovery: (threshold set at entry, raw window in bytes before it)
+    let mut entry: std::collections::HashMap<librqbit_utp::verif::ConnKey, (usize, f64)> = Default::default();
     for (t, p) in out.hist.probes() {
         let ProbeEvent::Cc { key, call, before, after } = p else { continue };
         let Some((cwnd, ssthresh, rwnd)) = after.raw else { continue };
@@ -44,8 +46,14 @@ pub fn check(_sc: &Scenario, out: &RunOutput) -> OracleResult {
             CcCall::OnRto | CcCall::OnEnterRecovery => {
                 if matches!(call, CcCall::OnRto) {
                     n_rto += 1;
+                    if let Some(k) = key {
+                        entry.remove(k);
+                    }
                 } else {
                     n_rec += 1;
+                    if let (Some(k), Some((bc, _, _))) = (key, before.raw) {
+                        entry.insert(*k, (after.sshthresh, bc * before.smss as f64));
+                    }
                 }
                 if after.window > before.window {
                     res.violate(P, "loss-increases-window", t, format!("{:?}: {:?} raised window {} -> {}", key, call, before.window, after.window));
@@ -112,7 +120,20 @@ pub fn check(_sc: &Scenario, out: &RunOutput) -> OracleResult {
                     }
                 }
             }
-            CcCall::OnRecovered { .. } => {}
+            CcCall::OnRecovered { .. } => {
+                // the reduction made when recovery was entered persists when it ends: the
+                // threshold is not raised again, the raw window does not exceed what it was
+                // before the loss (in bytes: MSS may have changed in between)
+                if let Some((ss_entry, cwnd_bytes_before)) = key.and_then(|k| entry.remove(&k)) {
+                    if after.sshthresh as f64 > ss_entry as f64 * 1.0001 + 2.0 * after.smss as f64 {
+                        res.violate(P, "recovery-exit-raises-ssthresh", t, format!("{:?}: slow-start threshold {} after leaving recovery, but entering it had set {} (0.7 of the window, at least two segments)", key, after.sshthresh, ss_entry));
+                    }
+                    let cwnd_bytes_after = cwnd * after.smss as f64;
+                    if cwnd_bytes_after > cwnd_bytes_before * 1.0001 + 2.0 * after.smss as f64 {
+                        res.violate(P, "recovery-exit-raises-window", t, format!("{:?}: raw congestion window {:.0} bytes after leaving recovery exceeds the {:.0} bytes it had before the loss", key, cwnd_bytes_after, cwnd_bytes_before));
+                    }
+                }
+            }
         }
         if !matches!(call, CcCall::SetMss(_) | CcCall::SetRemoteWindow(_)) {
             if let Some(k) = key {
